@@ -1002,7 +1002,7 @@ type c13bWorld struct {
 
 	// stop control: one counter over committed write transactions of the
 	// log and externally visible callbacks
-	crashAt  int
+	crashAt  [c13MaxLives - 1]int
 	lives    int
 	effects  int
 	perLife  []int
@@ -1046,7 +1046,7 @@ func (w *c13bWorld) tick(isTx bool) {
 	if w.lives == 0 {
 		w.txEffect = append(w.txEffect, isTx)
 	}
-	if w.lives == 0 && n == w.crashAt {
+	if w.lives < len(w.crashAt) && n == w.crashAt[w.lives] {
 		w.atTx = isTx
 		panic(c13Crash{})
 	}
@@ -1465,8 +1465,12 @@ func (w *c13bWorld) run() {
 	}
 }
 
-func c13bNewWorld(sc *c13bScenario, crashAt int) *c13bWorld {
-	w := &c13bWorld{sc: sc, crashAt: crashAt, db: c13kvNew()}
+func c13bNewWorld(sc *c13bScenario, crashAt ...int) *c13bWorld {
+	w := &c13bWorld{sc: sc, db: c13kvNew()}
+	for i := range w.crashAt {
+		w.crashAt[i] = -1
+	}
+	copy(w.crashAt[:], crashAt)
 	w.db.afterCommit = func() { w.tick(true) }
 
 	return w
@@ -1543,12 +1547,12 @@ func (w *c13bWorld) contradiction() bool {
 
 // window: 1 = only runs in which no restarted process finds a resolver with
 // the resolved flag set in the log; 2 = only runs in which one does.
-func c13bResume(window int) {
+func c13bResume(window, nCrash int) {
 	c13bConfig()
 	sc := c13bNewScenario()
 	vAssume(sc.dom)
 
-	a := c13bNewWorld(sc, -1)
+	a := c13bNewWorld(sc)
 	a.run()
 	vAssert(a.errs == 0, c13bMsgErr)
 	vAssert(a.fullyClosed && a.notified == 1 && !a.notifyBad &&
@@ -1559,6 +1563,16 @@ func c13bResume(window int) {
 	b := c13bNewWorld(sc, k)
 	b.run()
 	vAssert(b.lives == 1, "the interrupted run stops exactly once")
+	if nCrash == 2 {
+		// ... and once more after the k2-th effect of the resumed process
+		if b.perLife[1] == 0 {
+			vAssume(false)
+		}
+		k2 := vChoice("crash", b.perLife[1])
+		b = c13bNewWorld(sc, k, k2)
+		b.run()
+		vAssert(b.lives == 2, "the interrupted run stops exactly twice")
+	}
 	if (window == 1 && b.bootResolved) || (window == 2 && !b.bootResolved) {
 		vAssume(false)
 	}
@@ -1597,7 +1611,10 @@ func c13bResume(window int) {
 
 // VerifC13BoltResume: every stop point except those after which a restarted
 // process finds a resolver with the resolved flag set in the log.
-func VerifC13BoltResume() { c13bResume(1) }
+func VerifC13BoltResume() { c13bResume(1, 1) }
+
+// VerifC13BoltResume2: two stops, the second anywhere in the resumed process.
+func VerifC13BoltResume2() { c13bResume(1, 2) }
 
 // VerifC13BoltRestartResolved: exactly those stop points.
-func VerifC13BoltRestartResolved() { c13bResume(2) }
+func VerifC13BoltRestartResolved() { c13bResume(2, 1) }
